@@ -406,6 +406,39 @@ def make_history(rng, tid, weights, nops=None, plat=None, **seedkw):
                 port_nr=rng.random() < 0.3, protocol_nr=rng.random() < 0.3, ops=ops, origin="random-history")
 
 
+# ------------------------------------------------------------------ histories enumerated by TLC (MC_Acl_gen)
+
+MODEL_LINES = {   # the alphabet of MC_Acl, spelled at full size (the specification re-reads the tokens; only the SHAPE is carried over)
+    "a1": "permit tcp any any", "a2": "permit tcp 10.2.0.0 0.0.255.255 any eq 1", "a3": "permit tcp any any eq 1 65535",
+    "a4": "deny tcp 10.2.0.0 0.1.255.255 any", "a5": "permit tcp 10.2.0.0 0.1.255.255 any range 1 80", "a6": "permit ip any any",
+    "a7": "deny udp any any neq 80", "a8": "permit udp any any neq 1 80", "a9": "permit tcp object-group G any",
+    "r1": "remark = H1", "r2": "remark = H2", "r3": "remark note"}
+MODEL_OPS = {"UngroupPorts": dict(act="UngroupPorts"), "Group": dict(act="Group", prefix="= "), "Ungroup": dict(act="Ungroup"),
+             "DeleteShadow": dict(act="DeleteShadow", skip=None), "Reverse": dict(act="Reverse")}
+
+
+def tlc_histories(tier, seed, tid0, want=None, cap=None):
+    """every (rule list of <= 3 items, 2 operations) behaviour TLC prints from MC_Acl_gen, replayed on a live IOS Acl;
+    `want` keeps the behaviours that contain one of the given operations"""
+    hs, gen = core.generate("MC_Acl", "MC_Acl_gen")
+    if want:
+        hs = [h for h in hs if any(o in want for o in h["ops"])]
+    hs = core.cap(hs, cap or (2500 if tier == "quick" else 47125), random.Random(seed + 99))
+    jobs = []
+    for k, h in enumerate(hs):
+        lines = [MODEL_LINES[x] for x in h["seed"]]
+        ops = []
+        for o in h["ops"]:
+            ops.append(dict(MODEL_OPS[o]))
+            if o == "DeleteShadow":
+                ops.append(dict(act="DeleteShadow", skip=None, expect_empty=True))
+        ops.append(dict(act="Reparse"))
+        jobs.append(dict(tid=tid0 + k, plat="ios", ver="", vmajor=0, header="ip access-list extended M", lines=lines,
+                         groups={"G": ["10.2.0.0 0.0.255.255", "10.3.0.0 0.0.255.255"]}, group_by="", notes=bool(k % 2),
+                         port_nr=True, protocol_nr=False, ops=ops, origin="tlc-behaviour"))
+    return jobs, gen
+
+
 def fill_permutations(rng, jobs):
     """Permute needs the current length, known only at run time: the executor substitutes identity when lengths differ;
     here we guess the length from the seed (flat ACLs) so that most permutations are real."""
